@@ -1,13 +1,109 @@
-import BumpVerif.Proofs.VecCore
-/-! # C16 (Vec part) — under construction -/
+import BumpVerif.Proofs.VecOwn
+import BumpVerif.Proofs.VecFilter
+import BumpVerif.Proofs.VecDrain
+/-!
+# C16 (Vec part) — a panicking callback never causes double drops
+
+Callbacks are data: a predicate is `cb : Nat → Elem → Option Bool` (`cb k e` = answer of the
+`k`-th call, shown element `e`; `none` = that call panics), `Clone`/`Drop` panic through the
+one-shot triggers `Cfg.clonePanicAt` / `Cfg.dropPanicAt`.  Every theorem is for *all* `cb` /
+all trigger values, i.e. for every callback answer list and every panic index.
+
+Statement, per callback-taking method `m`: if `RepB c v xs` and `Own ins xs evs held`, then
+after `m` returned or unwound there are `ys`, `lk` with `RepB c v' ys` and
+`Own ins ys evs' (lk ++ held)` — nothing is reachable twice, nothing dropped or moved out is
+reachable, nothing was dropped twice; `lk` = what leaked.  Because the conclusion is again the
+hypothesis of every method theorem and of `C15_drop`, both continuations (keep using the
+vector / drop it) preserve it: `C16_then_drop`.
+
+Status.  Full theorems: `drain_filter` (after the fix of F5 in /repo, commit cdde727: the
+predicate may panic inside a caller's `next()` or inside the destructor, and a yielded element's
+destructor may panic), `retain`, `truncate`, `clear`, `drop` (panicking destructors).
+`into_iter` / `drain` dropped with panicking destructors.  NOT proved here (covered by the
+panic-injection run — drop-ledger oracle + model comparison — only): dedup_by(_key), resize and
+extend_from_slice and clone (panicking `Clone`), extend / splice / from_iter_in (panicking
+iterator), vec!.
+
+History: on the pinned tree the `drain_filter` statement was false (F5): with
+`xs = [0,1,2,3,4,5]`, "remove evens", predicate panicking at index 3 inside the caller's third
+`next()`, `DrainFilter::drop` resumed filtering and left `[1,1,5]` — element 1 reachable twice.
+`C16_F5_regression` pins the fixed behaviour on that input.
+-/
 namespace Bump.V.C16
 open Bump Bump.V
 
-theorem reserve_honoured {c : Cfg} {v v' : VS} {xs : List Elem} {n : Nat} (hc : CfgOK c) (h : RepB c v xs)
-    (hr : rawReserve c v v.len n = some v') : RepB c v' xs ∧ v.len + n ≤ capOf c v' :=
-  let ⟨a, b, _⟩ := rawReserve_some hc h hr
-  ⟨a, b⟩
+/-- `drain_filter`: any callback, any panic point (in a caller's `next()`, in the destructor's
+loop, or a yielded element's destructor), any number of `next()` calls, dropped or forgotten -/
+theorem C16_drain_filter {c : Cfg} {v : VS} {xs : List Elem} {ins held : List Nat} (hd : c.needsDrop = true)
+    (h : RepB c v xs) (cb : Nat → Elem → Option Bool) (take : Nat) (forget : Bool) (w : W) (ho : Own ins xs w.evs held) :
+    ∃ ys lk, RepB c (drainFilterOp c v cb take forget w).1 ys ∧
+      Own ins ys (drainFilterOp c v cb take forget w).2.1.evs (lk ++ held) ∧ (forget = false → lk = []) :=
+  drainFilterOp_own hd h cb take forget w ho
+
+/-- `retain`: any callback, any panic point; nothing leaks -/
+theorem C16_retain {c : Cfg} {v : VS} {xs : List Elem} {ins held : List Nat} (hd : c.needsDrop = true)
+    (h : RepB c v xs) (cb : Nat → Elem → Option Bool) (w : W) (ho : Own ins xs w.evs held) :
+    ∃ ys, RepB c (retain c v cb w).1 ys ∧ Own ins ys (retain c v cb w).2.1.evs held := retain_own hd h cb w ho
+
+/-- `truncate` / `clear` / shrinking `resize` with a destructor that panics at any call -/
+theorem C16_truncate {c : Cfg} {v : VS} {xs : List Elem} {ins held : List Nat} (hd : c.needsDrop = true)
+    (h : RepB c v xs) (n : Nat) (w : W) (ho : Own ins xs w.evs held) :
+    ∃ ys, RepB c (truncate c v n w).1 ys ∧ Own ins ys (truncate c v n w).2.1.evs held := truncate_own hd h n w ho
+
+/-- dropping the vector with a destructor that panics at any call: every element is still
+dropped exactly once -/
+theorem C16_drop {c : Cfg} {v : VS} {xs : List Elem} {ins held : List Nat} (hd : c.needsDrop = true)
+    (h : RepB c v xs) (w : W) (ho : Own ins xs w.evs held) : Own ins [] (dropVec c v w).1.evs held :=
+  (dropVec_own hd h w ho).2
+
+/-- dropping a `Drain` whose elements' destructor panics at any call (`c.dropPanicAt`
+arbitrary): the tail is leaked, nothing is duplicated or dropped twice -/
+theorem C16_drain_drop {c : Cfg} {v : VS} {xs : List Elem} {ins held : List Nat} (hd : c.needsDrop = true)
+    (h : RepB c v xs) (s e : Bd) (take back : Nat) (forget : Bool) (w : W) (ho : Own ins xs w.evs held) :
+    ∃ ys lk, RepB c (drainOp c v s e take back forget w).1 ys ∧
+      Own ins ys (drainOp c v s e take back forget w).2.1.evs (lk ++ held) :=
+  let ⟨ys, lk, a, b, _⟩ := drainOp_own hd h s e take back forget w ho
+  ⟨ys, lk, a, b⟩
+
+/-- dropping an `IntoIter` whose elements' destructor panics at any call -/
+theorem C16_into_iter_drop {c : Cfg} {v : VS} {xs : List Elem} {ins held : List Nat} (hd : c.needsDrop = true)
+    (h : RepB c v xs) (take back : Nat) (forget : Bool) (w : W) (ho : Own ins xs w.evs held) :
+    ∃ lk, Own ins [] (intoIterOp c v take back forget w).1.evs (lk ++ held) :=
+  let ⟨lk, a, _⟩ := intoIterOp_own hd h take back forget w ho
+  ⟨lk, a⟩
+
+/-- the "drop the container afterwards" continuation, for any state satisfying the invariant:
+no id is dropped twice, nothing moved out is dropped, what is neither dropped nor moved is
+exactly what leaked or is held elsewhere -/
+theorem C16_then_drop {c : Cfg} {v : VS} {xs : List Elem} {ins held : List Nat} (hd : c.needsDrop = true)
+    (h : RepB c v xs) (w : W) (ho : Own ins xs w.evs held) :
+    let evs' := (dropVec c v w).1.evs
+    (evDrops evs').Nodup ∧ (∀ i ∈ evDrops evs', i ∉ evMoved evs') ∧ (evDrops evs' ++ evMoved evs' ++ held).Perm ins := by
+  have ho' := (dropVec_own hd h w ho).2
+  have hdist := ho'.distinct
+  refine ⟨hdist.2.2.1, hdist.2.2.2, ?_⟩
+  have := ho'.1
+  simpa [Own] using this
+
+/-- the F5 input on the fixed code: six elements, "remove evens", the predicate panics when
+shown the element at index 3 during the caller's third `next()`: the vector keeps `[1,3,4,5]`
+(1 was kept, 3 is the element the predicate panicked on, 4 and 5 were never examined), 0 and 2
+went to the caller, nothing is dropped, nothing is duplicated -/
+theorem C16_F5_regression :
+    let xs : List Elem := [⟨0, 0⟩, ⟨1, 1⟩, ⟨2, 2⟩, ⟨3, 3⟩, ⟨4, 4⟩, ⟨5, 5⟩]
+    let v : VS := ⟨xs.map some, 6, 6⟩
+    let cb : Nat → Elem → Option Bool := fun k e => if k = 3 then none else some (e.val % 2 == 0)
+    let r := drainFilterOp {} v cb 3 false {}
+    r.1.owned.map (·.id) = [1, 3, 4, 5] ∧ r.2.1.evs = [.moveOut 0, .moveOut 2] ∧ r.2.2 = none := by
+  decide
 
 end Bump.V.C16
 
-#print axioms Bump.V.C16.reserve_honoured
+#print axioms Bump.V.C16.C16_drain_filter
+#print axioms Bump.V.C16.C16_retain
+#print axioms Bump.V.C16.C16_truncate
+#print axioms Bump.V.C16.C16_drop
+#print axioms Bump.V.C16.C16_then_drop
+#print axioms Bump.V.C16.C16_F5_regression
+#print axioms Bump.V.C16.C16_drain_drop
+#print axioms Bump.V.C16.C16_into_iter_drop
